@@ -55,7 +55,7 @@ FLOORS = {
     "thorough": {"convert.locations": 1000, "convert.copies": 14000, "convert.totals": 1000, "restore.obs": 1000, "edge-roundtrip.obs": 250,
                  "addEdge.originals": 800, "noop.obs": 900, "ambient.lookups": 40000, "independence": 2800},
 }
-TIMEOUT = {"quick": 600, "thorough": 3600}
+TIMEOUT = {"quick": 900, "thorough": 7200}
 ASSUMPTIONS = [
     "closed-form hex cell centres (checks.c07.hex_xy) and the 2x2 rotation are the geometric reference; armi's grid is not consulted for expected cells",
     "block parameter location classes are read from armi's parameter definitions (metadata, not behaviour under test)",
